@@ -47,7 +47,16 @@ def run_shard(shard, ctx):
         tag = ("c06", kind, D, R)
         Sig = objs.spd_batch(D, R, vi, seed, tag, diag=diag)
         mu = objs.vec_batch(D, R, vi, seed, tag)
-        p = objs.mk_pdf(kind, Sig, mu)
+        which = ("fresh", "sliced_neg", "updated", "Sigma+Lambda", "queried") if (vi == 0 and D <= 3) else ("fresh",)
+        for prep, mkp in objs.pdf_variants(kind, Sig, mu, which=which):
+            with ctx.guard("prepare." + prep, dict(prep=prep)) as g:
+                p = mkp()
+            if g.ok:
+                cond_on(ctx, shard, tier, p, kind, D, R, N, vi, mu, Sig, lists, prep)
+
+
+def cond_on(ctx, shard, tier, p, kind, D, R, N, vi, mu, Sig, lists, prep):
+    if True:
         x = al.points(N, D, salt=vi + D)
         lpj = np.asarray(p.evaluate_ln(J(x)))
         refj = np.array([rm.gauss_logpdf(x, mu[r], Sig[r]) for r in range(R)])
@@ -61,9 +70,9 @@ def run_shard(shard, ctx):
                 perms = [perms[0], perms[-1], perms[len(perms) // 2]]
             variants += [("condition_on_explicit", list(pa)) for pa in perms]
             for op, a in variants:
-                if not ctx.case(dict(vi=vi, b=b, a=a, op=op)):
+                if not ctx.case(dict(vi=vi, b=b, a=a, op=op, prep=prep)):
                     continue
-                facts = dict(op=op, nb=len(b), b_sorted=b == sorted(b), a_sorted=a == sorted(a))
+                facts = dict(op=op, nb=len(b), b_sorted=b == sorted(b), a_sorted=a == sorted(a), prep=prep)
                 if vi == 0 and R == 2 and b == sorted(b, reverse=True) and len(b) == 2 and op == "condition_on":
                     ctx.sample(dict(shard=shard["id"], op=op, dim_y=b, dim_x=a, Sigma=Sig, mu=mu, x=x))
                 with ctx.guard(op + ".call", facts) as g:
